@@ -189,6 +189,11 @@ def make_trapezoid(
             if rise_time is None:
                 raise ValueError('Must supply `rise_time` when `area` and `flat_time` is provided.')
 
+            if duration is not None and abs(duration - (rise_time + flat_time + fall_time)) > eps:
+                raise ValueError(
+                    'The `duration` is inconsistent with the given `rise_time`, `flat_time` and `fall_time`.'
+                )
+
             amplitude2 = area / (rise_time / 2 + fall_time / 2 + flat_time)
 
         else:
